@@ -1,6 +1,6 @@
 (* Dispatch table of the model entry points used by the correspondence check. *)
 From Coq Require Import ZArith NArith List String.
-From Cfi Require Import Glue.Sx Model.Version Model.Dll Model.DllRun Py.PrimEntry Model.LineRun.
+From Cfi Require Import Glue.Sx Model.Version Model.Dll Model.DllRun Py.PrimEntry Model.LineRun Model.ReaderRun.
 Import ListNotations.
 Open Scope string_scope.
 
@@ -9,7 +9,8 @@ Definition entries : list (string * (sx -> sx)) :=
     ("C19seq", fun a => L (map run_C19 (sxL a)));
     ("C07", run_C07); ("C08", run_C08); ("C15", run_C15);
     ("PRIM", run_prim);
-    ("FIELD", run_field); ("LINE", run_line) ].
+    ("FIELD", run_field); ("LINE", run_line);
+    ("REGFILE", run_regfile); ("BLOCKFILE", run_blockfile); ("SECTIONFILE", run_sectionfile) ].
 
 Fixpoint find_entry (name : str) (es : list (string * (sx -> sx))) : option (sx -> sx) :=
   match es with
